@@ -408,17 +408,20 @@ func (v *VecDense) AddVec(a, b Vector) {
 	aU, _ := untransposeExtract(a)
 	bU, _ := untransposeExtract(b)
 
-	if arv, ok := aU.(*VecDense); ok {
-		if brv, ok := bU.(*VecDense); ok {
+	// Check each *VecDense operand, whatever the type of the other one.
+	arv, aok := aU.(*VecDense)
+	if aok && v != arv {
+		v.checkOverlap(arv.mat)
+	}
+	brv, bok := bU.(*VecDense)
+	if bok && v != brv {
+		v.checkOverlap(brv.mat)
+	}
+
+	if aok {
+		if bok {
 			amat := arv.mat
 			bmat := brv.mat
-
-			if v != aU {
-				v.checkOverlap(amat)
-			}
-			if v != bU {
-				v.checkOverlap(bmat)
-			}
 
 			if v.mat.Inc == 1 && amat.Inc == 1 && bmat.Inc == 1 {
 				// Fast path for a common case.
@@ -451,17 +454,20 @@ func (v *VecDense) SubVec(a, b Vector) {
 	aU, _ := untransposeExtract(a)
 	bU, _ := untransposeExtract(b)
 
-	if arv, ok := aU.(*VecDense); ok {
-		if brv, ok := bU.(*VecDense); ok {
+	// Check each *VecDense operand, whatever the type of the other one.
+	arv, aok := aU.(*VecDense)
+	if aok && v != arv {
+		v.checkOverlap(arv.mat)
+	}
+	brv, bok := bU.(*VecDense)
+	if bok && v != brv {
+		v.checkOverlap(brv.mat)
+	}
+
+	if aok {
+		if bok {
 			amat := arv.mat
 			bmat := brv.mat
-
-			if v != aU {
-				v.checkOverlap(amat)
-			}
-			if v != bU {
-				v.checkOverlap(bmat)
-			}
 
 			if v.mat.Inc == 1 && amat.Inc == 1 && bmat.Inc == 1 {
 				// Fast path for a common case.
@@ -495,17 +501,20 @@ func (v *VecDense) MulElemVec(a, b Vector) {
 	aU, _ := untransposeExtract(a)
 	bU, _ := untransposeExtract(b)
 
-	if arv, ok := aU.(*VecDense); ok {
-		if brv, ok := bU.(*VecDense); ok {
+	// Check each *VecDense operand, whatever the type of the other one.
+	arv, aok := aU.(*VecDense)
+	if aok && v != arv {
+		v.checkOverlap(arv.mat)
+	}
+	brv, bok := bU.(*VecDense)
+	if bok && v != brv {
+		v.checkOverlap(brv.mat)
+	}
+
+	if aok {
+		if bok {
 			amat := arv.mat
 			bmat := brv.mat
-
-			if v != aU {
-				v.checkOverlap(amat)
-			}
-			if v != bU {
-				v.checkOverlap(bmat)
-			}
 
 			if v.mat.Inc == 1 && amat.Inc == 1 && bmat.Inc == 1 {
 				// Fast path for a common case.
@@ -544,17 +553,20 @@ func (v *VecDense) DivElemVec(a, b Vector) {
 	aU, _ := untransposeExtract(a)
 	bU, _ := untransposeExtract(b)
 
-	if arv, ok := aU.(*VecDense); ok {
-		if brv, ok := bU.(*VecDense); ok {
+	// Check each *VecDense operand, whatever the type of the other one.
+	arv, aok := aU.(*VecDense)
+	if aok && v != arv {
+		v.checkOverlap(arv.mat)
+	}
+	brv, bok := bU.(*VecDense)
+	if bok && v != brv {
+		v.checkOverlap(brv.mat)
+	}
+
+	if aok {
+		if bok {
 			amat := arv.mat
 			bmat := brv.mat
-
-			if v != aU {
-				v.checkOverlap(amat)
-			}
-			if v != bU {
-				v.checkOverlap(bmat)
-			}
 
 			if v.mat.Inc == 1 && amat.Inc == 1 && bmat.Inc == 1 {
 				// Fast path for a common case.
